@@ -298,8 +298,250 @@ func arrayType(t reflect.Type) reflect.Type {
 	return t
 }
 
+// caseIn is one case of the stream: everything observe needs.
+type caseIn struct {
+	i       int
+	r       *vh.Rng
+	format  string
+	o       vh.Opts
+	t       reflect.Type
+	v       reflect.Value
+	selfRef bool
+	typ     string // prefix of the type column (names the stream for the deterministic ones)
+}
+
+// observe runs every observation of one case and returns its digest line and the canonical encoding.
+func observe(c caseIn) (string, []byte) {
+	i, r, format, o, t, v, selfRef := c.i, c.r, c.format, c.o, c.t, c.v, c.selfRef
+	h := newHandle(format, o)
+	line := fmt.Sprintf("%d|%s|%s|%s", i, format, o.String(), c.typ+t.String())
+	var enc []byte
+	e1 := guarded(func() result {
+		var b []byte
+		arg := v.Interface()
+		if selfRef {
+			arg = v.Addr().Interface() // by pointer: the copy made by Interface() would not contain its own address
+		}
+		err := codec.NewEncoderBytes(&b, h).Encode(arg)
+		return result{err != nil, b, 0}
+	})
+	enc = e1.data
+	line += fmt.Sprintf("|enc:%v:%s", e1.err, trunc(enc))
+	// results are rendered by the harness's own deterministic printer (never re-encoded:
+	// re-encoding would mix in encoder behaviour and map iteration order)
+	reenc := func(x interface{}) []byte { return []byte(vh.Canon(x)) }
+	if !e1.err {
+		// typed decode
+		d1 := guarded(func() result {
+			p := reflect.New(t)
+			d := codec.NewDecoderBytes(enc, h)
+			err := d.Decode(p.Interface())
+			if err != nil {
+				return result{true, nil, d.NumBytesRead()}
+			}
+			return result{false, reenc(p.Elem().Interface()), d.NumBytesRead()}
+		})
+		line += fmt.Sprintf("|dec:%v:%d:%s", d1.err, d1.n, truncs(d1.data))
+		// decode into a PRE-POPULATED destination of the same type (merge semantics: existing
+		// elements, capacity smaller than the stream length, allocated pointers, map entries)
+		pre := vh.RandValue(r.Fork(), t, vh.ValOpts{BigLens: false, NoNaN: format == "json", NoInf: format == "json", MaxLen: 3})
+		dpre := guarded(func() result {
+			p := reflect.New(t)
+			p.Elem().Set(pre)
+			d := codec.NewDecoderBytes(enc, h)
+			err := d.Decode(p.Interface())
+			if err != nil {
+				dbg("pre: destination %s error %v", vh.Canon(pre.Interface()), err)
+				return result{true, nil, d.NumBytesRead()}
+			}
+			return result{false, reenc(p.Elem().Interface()), d.NumBytesRead()}
+		})
+		line += fmt.Sprintf("|pre:%v:%d:%s", dpre.err, dpre.n, truncs(dpre.data))
+		// decode into a destination of the SAME SHAPE as the encoded value (same map keys, allocated pointers,
+		// nearly the same lengths) with other leaves: every key of the stream hits an existing entry
+		pre2 := perturb(r.Fork(), v)
+		dpre2 := guarded(func() result {
+			p := reflect.New(t)
+			p.Elem().Set(pre2)
+			d := codec.NewDecoderBytes(enc, h)
+			err := d.Decode(p.Interface())
+			if err != nil {
+				dbg("pre2: destination %s error %v", vh.Canon(pre2.Interface()), err)
+				return result{true, nil, d.NumBytesRead()}
+			}
+			return result{false, reenc(p.Elem().Interface()), d.NumBytesRead()}
+		})
+		line += fmt.Sprintf("|pre2:%v:%d:%s", dpre2.err, dpre2.n, truncs(dpre2.data))
+		// decode into an interface{} that HOLDS such a destination by value (not a pointer): slices held there
+		// cannot be set or expanded, structs and arrays are not addressable, maps are decoded in place
+		dipre := guarded(func() result {
+			var x interface{} = perturb(r.Fork(), v).Interface()
+			d := codec.NewDecoderBytes(enc, h)
+			err := d.Decode(&x)
+			if err != nil {
+				dbg("ipre: error %v", err)
+				return result{true, nil, d.NumBytesRead()}
+			}
+			return result{false, reenc(x), d.NumBytesRead()}
+		})
+		line += fmt.Sprintf("|ipre:%v:%d:%s", dipre.err, dipre.n, truncs(dipre.data))
+		// decode into the NARROWED type (float64->float32, int/int64->int16, uint/uint64->uint8, same shape):
+		// overflow detection and rounding must not depend on the build variant
+		if nt := narrowType(t); nt != t {
+			dn := guarded(func() result {
+				p := reflect.New(nt)
+				d := codec.NewDecoderBytes(enc, h)
+				err := d.Decode(p.Interface())
+				if err != nil {
+					return result{true, nil, 0}
+				}
+				return result{false, reenc(p.Elem().Interface()), d.NumBytesRead()}
+			})
+			line += fmt.Sprintf("|narrow:%v:%d:%s", dn.err, dn.n, truncs(dn.data))
+		}
+		// decode into the ARRAY-SHAPED type (every []E becomes [3]E): streams shorter than the array leave a
+		// tail that must be zero, longer ones must be handled identically, in every variant
+		if at := arrayType(t); at != t {
+			da := guarded(func() result {
+				p := reflect.New(at)
+				d := codec.NewDecoderBytes(enc, h)
+				err := d.Decode(p.Interface())
+				if err != nil {
+					return result{true, nil, 0}
+				}
+				return result{false, reenc(p.Elem().Interface()), d.NumBytesRead()}
+			})
+			line += fmt.Sprintf("|arr:%v:%d:%s", da.err, da.n, truncs(da.data))
+		}
+		// decode into the same struct WITHOUT its last field: the stream then names (or, with StructToArray, carries)
+		// an entry the destination has no field for - skipped, or an error under ErrorIfNoField, in every variant
+		if t.Kind() == reflect.Struct && t.NumField() >= 2 {
+			fs := make([]reflect.StructField, t.NumField()-1)
+			for k := range fs {
+				fs[k] = t.Field(k)
+				fs[k].Offset = 0
+				fs[k].Index = nil
+			}
+			dt := reflect.StructOf(fs)
+			dd := guarded(func() result {
+				p := reflect.New(dt)
+				d := codec.NewDecoderBytes(enc, h)
+				err := d.Decode(p.Interface())
+				if err != nil {
+					dbg("drop: error %v", err)
+					return result{true, nil, 0}
+				}
+				return result{false, reenc(p.Elem().Interface()), d.NumBytesRead()}
+			})
+			line += fmt.Sprintf("|drop:%v:%d:%s", dd.err, dd.n, truncs(dd.data))
+		}
+		// the encoding embedded as codec.Raw (alone, and as slice elements): written as is under the Raw option, an
+		// error without it; read back as the bytes of one whole value
+		{
+			type rawT struct {
+				A codec.Raw
+				L []codec.Raw
+			}
+			dr := guarded(func() result {
+				var b []byte
+				if err := codec.NewEncoderBytes(&b, h).Encode(rawT{A: enc, L: []codec.Raw{enc, enc}}); err != nil {
+					return result{true, nil, 0}
+				}
+				var back rawT
+				d := codec.NewDecoderBytes(b, h)
+				if err := d.Decode(&back); err != nil {
+					return result{true, b, -1}
+				}
+				return result{false, append(append([]byte(nil), b...), []byte(fmt.Sprintf("=>%x,%d", back.A, len(back.L)))...), d.NumBytesRead()}
+			})
+			line += fmt.Sprintf("|raw:%v:%d:%s", dr.err, dr.n, trunc(dr.data))
+		}
+		// schema-less decode
+		d2 := guarded(func() result {
+			var x interface{}
+			d := codec.NewDecoderBytes(enc, h)
+			err := d.Decode(&x)
+			if err != nil {
+				return result{true, nil, d.NumBytesRead()}
+			}
+			return result{false, reenc(x), d.NumBytesRead()}
+		})
+		line += fmt.Sprintf("|naked:%v:%d:%s", d2.err, d2.n, truncs(d2.data))
+		// io transport
+		d3 := guarded(func() result {
+			p := reflect.New(t)
+			d := codec.NewDecoder(bytes.NewReader(enc), h)
+			err := d.Decode(p.Interface())
+			if err != nil {
+				return result{true, nil, d.NumBytesRead()}
+			}
+			return result{false, reenc(p.Elem().Interface()), d.NumBytesRead()}
+		})
+		line += fmt.Sprintf("|io:%v:%d:%s", d3.err, d3.n, truncs(d3.data))
+		// damaged inputs: truncation and one flipped byte, typed and schema-less
+		if len(enc) > 0 {
+			for k := 0; k < 5; k++ {
+				bad := append([]byte(nil), enc...)
+				switch k {
+				case 0:
+					bad = bad[:r.Intn(len(bad))]
+				case 1:
+					bad[r.Intn(len(bad))] ^= byte(1 << uint(r.Intn(8)))
+				case 2:
+					bad[r.Intn(len(bad))] = byte(r.U64())
+				case 3: // a marker byte (nil, undefined, break, bool, empty/indefinite container) in place of one byte
+					bad[r.Intn(len(bad))] = markers[r.Intn(len(markers))]
+				default: // the whole input is one marker byte
+					bad = []byte{markers[r.Intn(len(markers))]}
+				}
+				d4 := guarded(func() result {
+					p := reflect.New(t)
+					d := codec.NewDecoderBytes(bad, h)
+					err := d.Decode(p.Interface())
+					dbg("bad%d: input %x typed error %v", k, bad, err)
+					if err != nil {
+						return result{true, nil, 0}
+					}
+					return result{false, reenc(p.Elem().Interface()), d.NumBytesRead()}
+				})
+				d5 := guarded(func() result {
+					var x interface{}
+					d := codec.NewDecoderBytes(bad, h)
+					err := d.Decode(&x)
+					if err != nil {
+						return result{true, nil, 0}
+					}
+					return result{false, reenc(x), d.NumBytesRead()}
+				})
+				line += fmt.Sprintf("|bad%d:%v:%d:%s/%v:%d:%s", k, d4.err, d4.n, truncs(d4.data), d5.err, d5.n, truncs(d5.data))
+			}
+		}
+	}
+	// every one-byte input into this type: the successes (nil, undefined, empty containers, small scalars ...)
+	// must be the same set with the same results in every variant
+	{
+		var sb strings.Builder
+		for b := 0; b < 256; b++ {
+			in := []byte{byte(b)}
+			d6 := guarded(func() result {
+				p := reflect.New(t)
+				d := codec.NewDecoderBytes(in, h)
+				if err := d.Decode(p.Interface()); err != nil {
+					return result{true, nil, 0}
+				}
+				return result{false, reenc(p.Elem().Interface()), d.NumBytesRead()}
+			})
+			if !d6.err || len(d6.data) > 0 {
+				fmt.Fprintf(&sb, "%02x=%v,%d,%s;", b, d6.err, d6.n, truncs(d6.data))
+			}
+		}
+		line += "|one:" + sb.String()
+	}
+	return line, enc
+}
+
 func main() {
-	n := flag.Int("n", 1500, "cases")
+	n := flag.Int("n", 1500, "cases of the random stream (the deterministic streams follow, indices n, n+1, ...)")
 	out := flag.String("out", "", "digest file")
 	casesDir := flag.String("cases", "", "unused (no model cases in this command)")
 	only := flag.Int("only", -1, "run only this case index and print it untruncated to stdout")
@@ -307,7 +549,7 @@ func main() {
 	_ = casesDir
 	seed := vh.SeedFromEnv()
 	r := vh.NewRng(seed)
-	sum := vh.NewSummary("one seeded stream of (format, enc+dec options, random static type incl. tagged structs, value, damaged inputs); per case: canonical encode, typed decode + re-encode, schema-less decode + re-encode, decode of truncated and bit-flipped input, NumBytesRead; distinct by (format, kind, depth, options); lines are diffed across build-tag sets by the driver")
+	sum := vh.NewSummary("three streams, lines diffed across build-tag sets by the driver. (1) seeded stream of (format, enc+dec options, random static type incl. tagged structs, value, damaged inputs); per case: canonical encode, typed decode + re-encode, schema-less decode + re-encode, pre-populated / same-shape / interface-held / narrowed / array-shaped / one-field-short destinations, the encoding as codec.Raw, decode of truncated and bit-flipped input, NumBytesRead; every boolean field of DecodeOptions, EncodeOptions, BasicHandle and the format's handle (found by reflection) is drawn. (2) corner option vectors per format (none, each boolean alone, all but each one, all, all decode, all encode, all+MaxInitLen=1; Canonical off on single-entry maps) on a fixed struct of fast-path and reflection-route fields + one random type, same observations. (3) stream array/map longer, equal, shorter than a destination that cannot grow ([N]E by pointer and as struct field, []E by value) and one that can, x format (cbor with and without IndefiniteLength) x ErrorIfNoArrayExpand x 21 element types with and without a generated fast-path. distinct by (format, kind, depth, options) / (format, vector) / (format, options, element type); distribution opt.X = cases run with option X on")
 	var w *bufio.Writer
 	if *out != "" {
 		f, err := os.Create(*out)
@@ -318,20 +560,38 @@ func main() {
 		w = bufio.NewWriter(f)
 		defer w.Flush()
 	}
-	r0 := r
-	for i := 0; i < *n; i++ {
-		r := r0.Fork() // per-case stream: what one case draws never depends on another case's outcome
+	emit := func(i int, line string) {
+		if *only >= 0 {
+			fmt.Println(line)
+		}
+		if w != nil {
+			w.WriteString(line)
+			w.WriteByte(0x0a)
+			w.Flush()
+		}
+	}
+	skip := func(i int) bool {
 		if *only >= 0 && i != *only {
-			continue
+			return true
 		}
 		if *only >= 0 {
 			truncLimit = 1 << 30
 			debug = true
 		}
+		return false
+	}
+	r0 := r
+	for i := 0; i < *n; i++ {
+		r := r0.Fork() // per-case stream: what one case draws never depends on another case's outcome
+		if skip(i) {
+			continue
+		}
 		format := vh.Formats[r.Intn(len(vh.Formats))]
 		o := vh.RandEncOpts(r, format)
 		o["Canonical"] = true
 		decOpts(r, o)
+		// the booleans the two generators above never draw, from a generator of their own
+		extraOpts(vh.NewRng(seed*0x9E3779B1+uint64(i)*0x85EBCA77+0xC05), o, format)
 		to := vh.TypeOpts{MaxDepth: 3, Tags: true}
 		if format == "json" {
 			to.StringKeys = r.Chance(2, 3)
@@ -367,203 +627,66 @@ func main() {
 			pad.Set(reflect.Zero(pad.Type()))
 			pad.Index(pad.Len() - 1).SetUint(1)
 		}
-		h := vh.NewHandle(format, o)
-		line := fmt.Sprintf("%d|%s|%s|%s", i, format, o.String(), t.String())
-		var enc []byte
-		e1 := guarded(func() result {
-			var b []byte
-			arg := v.Interface()
-			if selfRef {
-				arg = v.Addr().Interface() // by pointer: the copy made by Interface() would not contain its own address
-			}
-			err := codec.NewEncoderBytes(&b, h).Encode(arg)
-			return result{err != nil, b, 0}
-		})
-		enc = e1.data
-		line += fmt.Sprintf("|enc:%v:%s", e1.err, trunc(enc))
-		// results are rendered by the harness's own deterministic printer (never re-encoded:
-		// re-encoding would mix in encoder behaviour and map iteration order)
-		reenc := func(x interface{}) []byte { return []byte(vh.Canon(x)) }
-		if !e1.err {
-			// typed decode
-			d1 := guarded(func() result {
-				p := reflect.New(t)
-				d := codec.NewDecoderBytes(enc, h)
-				err := d.Decode(p.Interface())
-				if err != nil {
-					return result{true, nil, d.NumBytesRead()}
-				}
-				return result{false, reenc(p.Elem().Interface()), d.NumBytesRead()}
-			})
-			line += fmt.Sprintf("|dec:%v:%d:%s", d1.err, d1.n, truncs(d1.data))
-			// decode into a PRE-POPULATED destination of the same type (merge semantics: existing
-			// elements, capacity smaller than the stream length, allocated pointers, map entries)
-			pre := vh.RandValue(r.Fork(), t, vh.ValOpts{BigLens: false, NoNaN: format == "json", NoInf: format == "json", MaxLen: 3})
-			dpre := guarded(func() result {
-				p := reflect.New(t)
-				p.Elem().Set(pre)
-				d := codec.NewDecoderBytes(enc, h)
-				err := d.Decode(p.Interface())
-				if err != nil {
-					dbg("pre: destination %s error %v", vh.Canon(pre.Interface()), err)
-					return result{true, nil, d.NumBytesRead()}
-				}
-				return result{false, reenc(p.Elem().Interface()), d.NumBytesRead()}
-			})
-			line += fmt.Sprintf("|pre:%v:%d:%s", dpre.err, dpre.n, truncs(dpre.data))
-			// decode into a destination of the SAME SHAPE as the encoded value (same map keys, allocated pointers,
-			// nearly the same lengths) with other leaves: every key of the stream hits an existing entry
-			pre2 := perturb(r.Fork(), v)
-			dpre2 := guarded(func() result {
-				p := reflect.New(t)
-				p.Elem().Set(pre2)
-				d := codec.NewDecoderBytes(enc, h)
-				err := d.Decode(p.Interface())
-				if err != nil {
-					dbg("pre2: destination %s error %v", vh.Canon(pre2.Interface()), err)
-					return result{true, nil, d.NumBytesRead()}
-				}
-				return result{false, reenc(p.Elem().Interface()), d.NumBytesRead()}
-			})
-			line += fmt.Sprintf("|pre2:%v:%d:%s", dpre2.err, dpre2.n, truncs(dpre2.data))
-			// decode into an interface{} that HOLDS such a destination by value (not a pointer): slices held there
-			// cannot be set or expanded, structs and arrays are not addressable, maps are decoded in place
-			dipre := guarded(func() result {
-				var x interface{} = perturb(r.Fork(), v).Interface()
-				d := codec.NewDecoderBytes(enc, h)
-				err := d.Decode(&x)
-				if err != nil {
-					dbg("ipre: error %v", err)
-					return result{true, nil, d.NumBytesRead()}
-				}
-				return result{false, reenc(x), d.NumBytesRead()}
-			})
-			line += fmt.Sprintf("|ipre:%v:%d:%s", dipre.err, dipre.n, truncs(dipre.data))
-			// decode into the NARROWED type (float64->float32, int/int64->int16, uint/uint64->uint8, same shape):
-			// overflow detection and rounding must not depend on the build variant
-			if nt := narrowType(t); nt != t {
-				dn := guarded(func() result {
-					p := reflect.New(nt)
-					d := codec.NewDecoderBytes(enc, h)
-					err := d.Decode(p.Interface())
-					if err != nil {
-						return result{true, nil, 0}
-					}
-					return result{false, reenc(p.Elem().Interface()), d.NumBytesRead()}
-				})
-				line += fmt.Sprintf("|narrow:%v:%d:%s", dn.err, dn.n, truncs(dn.data))
-			}
-			// decode into the ARRAY-SHAPED type (every []E becomes [3]E): streams shorter than the array leave a
-			// tail that must be zero, longer ones must be handled identically, in every variant
-			if at := arrayType(t); at != t {
-				da := guarded(func() result {
-					p := reflect.New(at)
-					d := codec.NewDecoderBytes(enc, h)
-					err := d.Decode(p.Interface())
-					if err != nil {
-						return result{true, nil, 0}
-					}
-					return result{false, reenc(p.Elem().Interface()), d.NumBytesRead()}
-				})
-				line += fmt.Sprintf("|arr:%v:%d:%s", da.err, da.n, truncs(da.data))
-			}
-			// schema-less decode
-			d2 := guarded(func() result {
-				var x interface{}
-				d := codec.NewDecoderBytes(enc, h)
-				err := d.Decode(&x)
-				if err != nil {
-					return result{true, nil, d.NumBytesRead()}
-				}
-				return result{false, reenc(x), d.NumBytesRead()}
-			})
-			line += fmt.Sprintf("|naked:%v:%d:%s", d2.err, d2.n, truncs(d2.data))
-			// io transport
-			d3 := guarded(func() result {
-				p := reflect.New(t)
-				d := codec.NewDecoder(bytes.NewReader(enc), h)
-				err := d.Decode(p.Interface())
-				if err != nil {
-					return result{true, nil, d.NumBytesRead()}
-				}
-				return result{false, reenc(p.Elem().Interface()), d.NumBytesRead()}
-			})
-			line += fmt.Sprintf("|io:%v:%d:%s", d3.err, d3.n, truncs(d3.data))
-			// damaged inputs: truncation and one flipped byte, typed and schema-less
-			if len(enc) > 0 {
-				for k := 0; k < 5; k++ {
-					bad := append([]byte(nil), enc...)
-					switch k {
-					case 0:
-						bad = bad[:r.Intn(len(bad))]
-					case 1:
-						bad[r.Intn(len(bad))] ^= byte(1 << uint(r.Intn(8)))
-					case 2:
-						bad[r.Intn(len(bad))] = byte(r.U64())
-					case 3: // a marker byte (nil, undefined, break, bool, empty/indefinite container) in place of one byte
-						bad[r.Intn(len(bad))] = markers[r.Intn(len(markers))]
-					default: // the whole input is one marker byte
-						bad = []byte{markers[r.Intn(len(markers))]}
-					}
-					d4 := guarded(func() result {
-						p := reflect.New(t)
-						d := codec.NewDecoderBytes(bad, h)
-						err := d.Decode(p.Interface())
-						dbg("bad%d: input %x typed error %v", k, bad, err)
-						if err != nil {
-							return result{true, nil, 0}
-						}
-						return result{false, reenc(p.Elem().Interface()), d.NumBytesRead()}
-					})
-					d5 := guarded(func() result {
-						var x interface{}
-						d := codec.NewDecoderBytes(bad, h)
-						err := d.Decode(&x)
-						if err != nil {
-							return result{true, nil, 0}
-						}
-						return result{false, reenc(x), d.NumBytesRead()}
-					})
-					line += fmt.Sprintf("|bad%d:%v:%d:%s/%v:%d:%s", k, d4.err, d4.n, truncs(d4.data), d5.err, d5.n, truncs(d5.data))
-				}
-			}
-		}
-		// every one-byte input into this type: the successes (nil, undefined, empty containers, small scalars ...)
-		// must be the same set with the same results in every variant
-		{
-			var sb strings.Builder
-			for b := 0; b < 256; b++ {
-				in := []byte{byte(b)}
-				d6 := guarded(func() result {
-					p := reflect.New(t)
-					d := codec.NewDecoderBytes(in, h)
-					if err := d.Decode(p.Interface()); err != nil {
-						return result{true, nil, 0}
-					}
-					return result{false, reenc(p.Elem().Interface()), d.NumBytesRead()}
-				})
-				if !d6.err || len(d6.data) > 0 {
-					fmt.Fprintf(&sb, "%02x=%v,%d,%s;", b, d6.err, d6.n, truncs(d6.data))
-				}
-			}
-			line += "|one:" + sb.String()
-		}
-		if *only >= 0 {
-			fmt.Println(line)
-		}
-		if w != nil {
-			w.WriteString(line)
-			w.WriteByte(0x0a)
-			w.Flush()
-		}
+		line, enc := observe(caseIn{i: i, r: r, format: format, o: o, t: t, v: v, selfRef: selfRef})
+		emit(i, line)
 		key := fmt.Sprintf("%s/%s/d%d/%s", format, vh.DescribeKind(t), vh.TypeDepth(t), o.String())
 		if len(enc) <= 1 {
 			key = ""
 		}
 		sum.Count("c05."+format, key)
+		countOpts(sum, o)
 		if i < 3 {
 			sum.Sample(line)
 		}
 	}
+	idx := *n
+	// ---- corner option vectors (seed-independent vectors; the random part of the type and the values are seeded) ----
+	rc := vh.NewRng(seed ^ 0xC05C0)
+	for _, format := range vh.Formats {
+		for _, vec := range cornerVectors(format) {
+			i := idx
+			idx++
+			r := rc.Fork()
+			if skip(i) {
+				continue
+			}
+			c := cornerCase(i, r, format, vec)
+			line, enc := observe(c)
+			emit(i, line)
+			key := "corner/" + format + "/" + vec.name
+			if len(enc) <= 1 {
+				key = ""
+			}
+			sum.Count("c05.corner."+format, key)
+			countOpts(sum, c.o)
+			if vec.name == "all" && format == "cbor" {
+				sum.Sample(truncSample(line))
+			}
+		}
+	}
+	// ---- streams longer than a destination that cannot grow ----
+	rl := vh.NewRng(seed ^ 0xC05A7)
+	for k, c := range longConfigs() {
+		i := idx
+		idx++
+		r := rl.Fork()
+		if skip(i) {
+			continue
+		}
+		line := longCase(i, r, c)
+		emit(i, line)
+		sum.Count(longBucket(c), "long/"+c.format+"/"+c.o.String()+"/"+c.elem.name)
+		countOpts(sum, c.o)
+		if k == 9 {
+			sum.Sample(truncSample(line))
+		}
+	}
 	sum.Print()
+}
+
+func truncSample(s string) string {
+	if len(s) > 1500 {
+		return s[:1500] + "…"
+	}
+	return s
 }
